@@ -21,7 +21,7 @@ rm $PKG/zz_seed_demo_test.go
 suite_rc=0; fails=""
 for i in 1 2; do
   for attempt in 1 2 3; do
-    out=$(go test -vet=off -count=1 ./... 2>&1) && break
+    out=$(timeout 300 go test -vet=off -count=1 -timeout 120s ./... 2>&1) && break
     f=$(echo "$out" | grep -E '^--- FAIL' | grep -v TestJitterTicker)
     # xtime.TestJitterTicker is a wall-clock test that flakes under load (also on the clean tree): retry when it is the only failure
     if [ -n "$f" ] || [ $attempt -eq 3 ]; then suite_rc=1; fails="$fails $(echo "$out" | grep -E '^(FAIL|--- FAIL)' | tr '\n' ' ')"; break; fi
